@@ -349,8 +349,60 @@ pub fn take_last_panic() -> Option<String> {
     LAST_PANIC.with(|p| p.borrow_mut().take())
 }
 
+extern "C" {
+    fn signal(signum: i32, handler: usize) -> usize;
+    fn alarm(seconds: u32) -> u32;
+    fn _exit(code: i32) -> !;
+}
+
+/// Fatal signals (SIGSEGV, SIGBUS, SIGILL, SIGFPE, SIGABRT) while a worker thread is inside library
+/// code: the case that thread had declared becomes the replay of a C07 violation. The handler is not
+/// async-signal-safe in the strict sense (it formats and writes a file); the process is lost anyway,
+/// and an alarm bounds the time it may take.
+extern "C" fn on_fatal_signal(sig: i32) {
+    unsafe {
+        alarm(10);
+    }
+    let in_lib = IN_LIB.try_with(Cell::get).unwrap_or(false);
+    let slot: Option<Slot> = MY_SLOT
+        .try_with(|s| s.try_borrow().ok().and_then(|o| o.as_ref().map(|h| h.slot.try_lock().ok().map(|g| g.clone()))))
+        .ok()
+        .flatten()
+        .flatten();
+    match (in_lib, slot) {
+        (true, Some(s)) if !s.property.is_empty() => {
+            let mut case = slot_case_json(&s);
+            case.as_object_mut().unwrap().insert("signal".into(), json!(sig));
+            let v = Violation {
+                property: "C07".to_string(),
+                engine: s.engine,
+                what: format!("library code crashed with signal {sig} (memory fault) during a {} sweep", s.property),
+                case,
+            };
+            let path = emit_violation(&v);
+            if s.property != "C07" {
+                println!("VIOLATION property={} replay={}", s.property, path);
+                println!("  what: a search through the public API crashed instead of returning its matches (see the C07 line above)");
+            }
+            write_abort_evidence(&v.what);
+            use std::io::Write;
+            let _ = std::io::stdout().flush();
+            unsafe { _exit(1) }
+        }
+        _ => {
+            eprintln!("MACHINERY: fatal signal {sig} outside library code");
+            unsafe { _exit(2) }
+        }
+    }
+}
+
 /// Installs the panic hook (attribution of non-unwinding aborts) and the hang watchdog.
 pub fn install_guards(hang_secs: u64) {
+    for sig in [11, 7, 4, 8, 6] {
+        unsafe {
+            signal(sig, on_fatal_signal as usize);
+        }
+    }
     std::panic::set_hook(Box::new(|info| {
         let msg = format!("{info}");
         let in_lib = IN_LIB.with(Cell::get);
